@@ -280,9 +280,69 @@ table! {
     Vec<OwnedObjectPath> => "ao", nofix;
     (u8, Vec<(u8, Vec<(u8, String)>)>) => "(ya(ya(ys)))", nofix;
     std::time::Duration => "(tu)", fix_duration;
+    std::time::SystemTime => "(tu)", fix_duration;
     std::net::Ipv4Addr => "(yyyy)", nofix;
+    std::net::Ipv6Addr => "(yyyyyyyyyyyyyyyy)", nofix;
+    std::net::IpAddr => "(uay)", fix_ipaddr;
+    std::net::SocketAddrV4 => "((yyyy)q)", nofix;
+    Vec<std::net::IpAddr> => "a(uay)", fix_ipaddr_long;
+    Vec<std::net::Ipv4Addr> => "a(yyyy)", fix_long;
+    Vec<(u8, String)> => "a(ys)", fix_long;
+    Vec<Vec<u32>> => "aau", fix_long;
+    HashMap<u32, (u8, u8)> => "a{u(yy)}", fix_long;
+    std::collections::VecDeque<u32> => "au", nofix;
+    std::collections::BTreeSet<u16> => "aq", fix_set;
+    Box<(u8, String)> => "(ys)", nofix;
+    std::num::Wrapping<u16> => "q", nofix;
+    std::borrow::Cow<'static, str> => "s", nofix;
+    std::cell::RefCell<(u8, u32)> => "(yu)", nofix;
+    std::sync::Mutex<Vec<String>> => "as", nofix;
     (u32, zvariant::OwnedFd) => "(uh)", nofix;
     Vec<zvariant::OwnedFd> => "ah", nofix;
+}
+
+/// now and then a top-level array / dict of 33..45 entries (state leaking from one element to the
+/// next shows only past the nesting limits)
+fn fix_long(src: &mut Src, v: RVal) -> RVal {
+    if !src.chance(40) {
+        return v;
+    }
+    let n = 33 + src.below(13);
+    match v {
+        RVal::A(e, items) if !items.is_empty() => {
+            let out: Vec<RVal> = (0..n).map(|i| items[i % items.len()].clone()).collect();
+            RVal::A(e, out)
+        }
+        RVal::Dict(k, vs, entries) if !entries.is_empty() => {
+            let out: Vec<(RVal, RVal)> = (0..n).map(|i| (RVal::U(i as u32 * 7 + 1), entries[i % entries.len()].1.clone())).collect();
+            RVal::Dict(k, vs, out)
+        }
+        x => x,
+    }
+}
+fn ip_of(src: &mut Src) -> RVal {
+    let v6 = src.bool();
+    let n = if v6 { 16 } else { 4 };
+    RVal::St(vec![RVal::U(v6 as u32), RVal::A(RSig::Y, (0..n).map(|_| RVal::Y(src.u8())).collect())])
+}
+fn fix_ipaddr(src: &mut Src, _v: RVal) -> RVal {
+    ip_of(src)
+}
+fn fix_ipaddr_long(src: &mut Src, _v: RVal) -> RVal {
+    let n = if src.chance(60) { 33 + src.below(10) } else { src.below(4) };
+    RVal::A(RSig::St(vec![RSig::U, RSig::A(Box::new(RSig::Y))]), (0..n).map(|_| ip_of(src)).collect())
+}
+/// sets are written in order without repetition
+fn fix_set(_: &mut Src, v: RVal) -> RVal {
+    match v {
+        RVal::A(e, items) => {
+            let mut xs: Vec<u16> = items.iter().filter_map(|x| if let RVal::Q(q) = x { Some(*q) } else { None }).collect();
+            xs.sort();
+            xs.dedup();
+            RVal::A(e, xs.into_iter().map(RVal::Q).collect())
+        }
+        x => x,
+    }
 }
 
 fn fix_duration(_: &mut Src, v: RVal) -> RVal {
